@@ -96,8 +96,10 @@ class Check:
         self.known = [f for f in load_known() if f.get("property") == pid]
         import threading
         self._lock = threading.Lock()
+        # X.. = extra coverage beyond the listed properties: same machinery, evidence kept apart
+        self.evid = os.path.join(EVID, "extras") if pid.startswith("X") else EVID
         os.makedirs(BUILD, exist_ok=True)
-        os.makedirs(EVID, exist_ok=True)
+        os.makedirs(self.evid, exist_ok=True)
         os.makedirs(REPLAY, exist_ok=True)
         for old in ([] if replay else glob.glob(os.path.join(REPLAY, pid + "-*.json"))):
             try:
@@ -534,9 +536,9 @@ class Check:
         ev = {"property_id": self.pid, "tier": self.tier, "seed": self.seed, "level": "model_checking",
               "coverage": cov, "assumptions": self.assumptions, "wall_s": round(wall, 1),
               "violations": len(self.violations)}
-        tmp = os.path.join(EVID, self.pid + ".json.tmp")
+        tmp = os.path.join(self.evid, self.pid + ".json.tmp")
         json.dump(ev, open(tmp, "w"), indent=1)
-        os.replace(tmp, os.path.join(EVID, self.pid + ".json"))
+        os.replace(tmp, os.path.join(self.evid, self.pid + ".json"))
         shutil.rmtree(self.scratch, ignore_errors=True)
         for fid, (n, f) in self.known_hits.items():
             print("KNOWN-FINDING: property=%s %s [%s, %d case(s)]" % (self.pid, f["what"], fid, n))
